@@ -10,7 +10,8 @@
              histories the key service is down between opens.
              The handle is dropped and the file REOPENED with the same key at random points
              (HRe): one KEK use per reopen, none by any call incl. the first write after it.
-   - Opens:  a session of db.Open attempts IN ONE PROCESS on one path, every attempt made
+   - Opens:  a session of db.Open attempts IN ONE PROCESS on the database file ITSELF, in the
+             live state directory of a database with several saves behind it, every attempt made
              right after a successful open of the original file with the right key and
              followed by another one: right key (AR), foreign keys on the original bytes (AF),
              right key on altered bytes (AT: bit flips, truncations, fields of another
@@ -40,7 +41,8 @@ Record sobs := {
   so_mode_audit : N;
   so_kek : N;                (* KEK uses during the call *)
   so_res : N;                (* outcome class of the call: 0 success, 1 not found, 2 any other error *)
-  so_live : live_dump        (* the state the handle serves (full dump through the API) *)
+  so_live : live_dump;       (* the state the handle serves (full dump through the API) *)
+  so_files : list N          (* the files of the state directory: 1 the database file, 2 the audit log, 99 anything else *)
 }.
 
 Inductive fkind :=
@@ -57,7 +59,9 @@ Inductive hobs :=
 Inductive akind := AR | AF | AT.
 (* one open attempt: outcome (None = error, Some i = opened to the i-th dump of the case's
    table), uses of the key given to it, uses of all other keys of the session *)
-Inductive att := At (k : akind) (out : option N) (given others : N).
+(* ... and [side]: the number of files of the directory (other than by the harness's own
+   writing of the attempt's bytes) created, removed or modified by the attempt *)
+Inductive att := At (k : akind) (out : option N) (given others side : N).
 
 Inductive case :=
 | Hist (steps : list hobs)
@@ -95,7 +99,12 @@ Definition check_probe (f : term) (uses : N) (model_doc : disk_dump) (o : sobs) 
   (* nothing derivable: no marker anywhere *)
   && (so_val_hits o =? 0) && (so_name_hits o =? 0)
   && (so_mode_db o =? 384) && (so_mode_audit o =? 384)
-  && (so_kek o =? uses).
+  && (so_kek o =? uses)
+  (* the database file and the audit log are there.  Policy: an ADDITIONAL file (code 99) is
+     not judged here - its mere presence is C04's business (directory listing); C05 judges it
+     by its effects: a marker in it (scan above) or a changed open outcome (Opens sessions,
+     which run in this very directory) *)
+  && existsb (N.eqb 1) (so_files o) && existsb (N.eqb 2) (so_files o).
 
 Definition res_class (r : result V) : N :=
   match r with RNotFound => 1 | ROther | RDenied => 2 | _ => 0 end.
@@ -131,7 +140,8 @@ Definition sym_file : term := file_of kek dek 0 0 (Pub 0).
 Definition foreign : N := 8.
 
 Definition att_ok (orig : disk_dump) (dumps : list disk_dump) (a : att) : bool :=
-  let '(At k out given others) := a in
+  let '(At k out given others side) := a in
+  (side =? 0) &&    (* opening is read-only: c_open is a function of file and key, with no effect *)
   let o : outcome disk_dump :=
     match out with
     | None => OErr
@@ -163,6 +173,6 @@ Definition check (c : case) : bool :=
   end.
 
 (* compact constructor for generated terms *)
-Definition So (keys : list N) (ver : N) (d1 d2 b1 b2 : bool) (doc : disk_dump) (vh nh md ma k rc : N) (lv : live_dump) : sobs :=
+Definition So (keys : list N) (ver : N) (d1 d2 b1 b2 : bool) (doc : disk_dump) (vh nh md ma k rc : N) (lv : live_dump) (fl : list N) : sobs :=
   {| so_keys := keys; so_ver := ver; so_dek_v1 := d1; so_dek_other := d2; so_db_v1 := b1; so_db_other := b2;
-     so_doc := doc; so_val_hits := vh; so_name_hits := nh; so_mode_db := md; so_mode_audit := ma; so_kek := k; so_res := rc; so_live := lv |}.
+     so_doc := doc; so_val_hits := vh; so_name_hits := nh; so_mode_db := md; so_mode_audit := ma; so_kek := k; so_res := rc; so_live := lv; so_files := fl |}.
